@@ -1051,5 +1051,41 @@ pub fn run(out: &mut Out, seed: u64, thorough: bool, replay: Option<&str>) {
         out.run(&mut s, "sizes".into());
         out.mark_distinct(fnv(&own) ^ 0x5a);
     }
+    // ---- an info hash whose peer caches are exactly full, then peers that are already in announce again
+    //      (not the least recently used one): nothing is evicted, the store keeps its size
+    for (c, cap) in [(0usize, 1usize), (1, 2), (2, 3), (3, 5)] {
+        let own = rng.id20();
+        let sd = rng.next() | 1;
+        out.begin(&mut s, &format!("server {} 3 {} 3 3 {} all {}", hex(&own), cap, sd, 4_000_000_000_000_000u64 + c as u64 * 10_000_000_000_000));
+        let from = SocketAddrV4::new(Ipv4Addr::new(45, 9, 9, 10), 6881);
+        let fa = addr_s(&from);
+        let ih = rng.id20();
+        let r = out.run(&mut s, format!("req {fa} get_peers {} {}", hex(&rng.id20()), hex(&ih)));
+        let tok = r.find("tok=").map(|p| r[p + 4..].split(' ').next().unwrap_or("-").to_string()).unwrap_or("-".into());
+        let wall = 1_700_000_000_000_000u64 + dht::verif::now_ns() / 1000;
+        let rids: Vec<[u8; 20]> = (0..cap).map(|_| rng.id20()).collect();
+        let keys: Vec<SigningKey> = (0..cap).map(|i| SigningKey::from_bytes(&[(i + 40) as u8; 32])).collect();
+        let announce = |out: &mut Out, s: &mut ServerStream, i: usize| {
+            out.run(s, format!("req {fa} announce {} {} {} {} none", hex(&rids[i]), tok, hex(&ih), 2000 + i));
+            let msg = signable_announce(&ih, wall);
+            let sig = keys[i].sign(&msg).to_bytes();
+            let k = keys[i].verifying_key().to_bytes();
+            out.run(s, format!("know {} {} {}", hex(&k), hex(&msg), hex(&sig)));
+            out.run(s, format!("req {fa} announce_signed {} {} {} {} {} {}", hex(&rids[i]), tok, hex(&ih), wall, hex(&k), hex(&sig)));
+        };
+        for i in 0..cap {
+            announce(out, &mut s, i);
+        }
+        out.run(&mut s, "sizes".into());
+        // most recently used first, then every other one, each followed by a read of both stores
+        for i in (0..cap).rev().chain(0..cap) {
+            announce(out, &mut s, i);
+            out.run(&mut s, format!("req {fa} get_peers {} {}", hex(&rng.id20()), hex(&ih)));
+            out.run(&mut s, format!("req {fa} get_signed_peers {} {}", hex(&rng.id20()), hex(&ih)));
+            out.run(&mut s, "sizes".into());
+        }
+        out.count("reannounce-at-capacity");
+        out.mark_distinct(fnv(&own) ^ 0x5b);
+    }
     dht::verif::seed_thread(0);
 }
